@@ -42,7 +42,11 @@ Multi == <<
   "(defmacro tagged (fn [& xs] (list 'quote (with-meta (apply list xs) {:tag \"g\"})))) (trace! (meta (tagged 1 2 3))) (trace! (tagged 4))",
   \* a string holding a TAB and a string holding a carriage return (as characters, not escapes)
   "(def row \"id\tname\") (trace! row) (trace! (count (split row \"\t\")))",
-  "(def cr \"a\rb\") (trace! cr) (trace! [cr {:k cr}])" >>
+  "(def cr \"a\rb\") (trace! cr) (trace! [cr {:k cr}])",
+  \* a future whose body throws, awaited, the error looked at
+  "(def fu (future (throw \"boom\"))) (trace! (try @fu (catch e (str \"job failed: \" e))))",
+  \* a completed future as the value of a top-level form (the REPL prints it), awaited again afterwards
+  "(def job (future (+ 40 2))) (def w @job) job (trace! (list w @job)) [job] (trace! @job)" >>
 
 CtxForms == C01CtxForms
 G == C01G
